@@ -98,8 +98,12 @@ package index
 
 //@ func (*multiWidthIndex).forEachDigest
 //@   call[maplookup#0] assume stored_buckets_wellformed: 8 <= value.width && value.width <= 33554432 && value.len * value.width <= len(value.index)
+//@   call[append#0] assert collects_the_widths [C11]: ref(arg0) == ref(sizes) && len(arg1) == 1 && arg1[0] == k
+//@   call[maplookup#0] assert bucket_of_next_sorted_width [C11]: key == sizes[rangeindex]
+//@   call[singleWidthIndex.forEachDigest#0] assert same_callback [C11]: arg1 == f
 //@   closure[0]
 //@     assume sort_slice_indices: 0 <= i && i < len(sizes) && 0 <= j && j < len(sizes)
+//@     ensures ascending_by_width [C11]: result == (sizes[i] < sizes[j])
 //@   end
 
 //@ func (*InsertionIndex).GetAll
@@ -202,3 +206,22 @@ package index
 //@   call[mapupdate#1] assert listed_under_its_digest_length [C03,C11]: key == len(dec.Digest)
 //@   note the layout of the compact form (record of rank k in slot k) is not under contract: products of two variables
 //@   call[mapupdate#2] assert bucket_fields [C03,C11]: key == wrap_u32(wrap_u32(width) + 8) && value.width == wrap_u32(rcrdWdth) && value.len == len(lst) && ref(value.index) == ref(compact)
+
+// Iteration (C11): every digest of a coded bucket is yielded as the multihash of that digest under the bucket's own
+// code, with the offset stored next to it; buckets are visited in ascending code / width order.
+
+//@ func (*multiWidthCodedIndex).forEach
+//@   closure[0]
+//@     let emh, eerr := call[multihash.Encode#0]
+//@     call[multihash.Encode#0] assert encodes_this_digest_under_the_bucket_code [C11]: ref(arg0) == ref(digest) && arg1 == m.code
+//@     call[dynamic#0] assert yields_that_multihash_and_offset [C11]: ref(arg0) == ref(emh) && arg1 == offset && eerr == nil
+//@   end
+
+//@ func (*MultihashIndexSorted).ForEach
+//@   call[append#0] assert collects_the_codes [C11]: ref(arg0) == ref(sizes) && len(arg1) == 1 && arg1[0] == k
+//@   call[maplookup#0] assert bucket_of_next_sorted_code [C11]: key == sizes[rangeindex]
+//@   call[multiWidthCodedIndex.forEach#0] assert same_callback [C11]: arg1 == f
+//@   closure[0]
+//@     assume sort_slice_indices: 0 <= i && i < len(sizes) && 0 <= j && j < len(sizes)
+//@     ensures ascending_by_code [C11]: result == (sizes[i] < sizes[j])
+//@   end
